@@ -185,6 +185,14 @@ def crafted():
     out.append((header(9, 0x8180, 1, 1, 1, 0) + q + b'\xc0\x0c' + a_tail + b'\xc0\xff' + a_tail, 'sections-bad-authority'))
     out.append((h1 + b'\x03w.w\x02a\x00b\x00\x00\x01\x00\x01' + b'\xc0\x0c' + a_tail, 'label-with-dot-or-nul'))
     out.append((h1 + b'\x00\x00\x01\x00\x01' + b'\x00' + a_tail, 'root-names'))
+    # a pointer to an offset beyond 1024 and beyond 4096 (all 14 bits of the pointer matter)
+    for padlen in (1100, 5000):
+        m = bytearray(header(5, 0x8180, 1, 3) + q)
+        m += b'\xc0\x0c' + b'\x00\x10\x00\x01\x00\x00\x00\x05' + struct.pack('>H', padlen) + bytes((j * 7) & 255 for j in range(padlen))
+        far = len(m)
+        m += b'\x03far\xc0\x10' + a_tail
+        m += b'\x01x' + struct.pack('>H', 0xC000 | far) + b'\x00\x0c\x00\x01\x00\x00\x00\x3c\x00\x02' + struct.pack('>H', 0xC000 | far)
+        out.append((bytes(m), 'ptr-far'))
     for n in range(0, 14):
         out.append((bytes(range(1, n + 1)), 'short'))
     out.append((b'', 'short'))
@@ -196,7 +204,7 @@ def gen_unpack(ctx, enc_from_tlc):
     cases, seen = [], set()
 
     def add(b, tag):
-        if b not in seen and len(b) <= 4000:
+        if b not in seen and len(b) <= 6000:
             seen.add(b)
             cases.append((b, tag))
     for b in enc_from_tlc:
@@ -210,12 +218,12 @@ def gen_unpack(ctx, enc_from_tlc):
             add(b[:n], 'truncated')
     vals = [0x00, 0x01, 0x0c, 0x3f, 0x40, 0x80, 0xbf, 0xc0, 0xc1, 0xff]
     for b in bases + big[:1]:                                                 # byte substitutions
-        pos = range(len(b)) if ctx.thorough else sorted(rnd.sample(range(len(b)), min(len(b), 25)))
+        pos = range(len(b)) if ctx.thorough else sorted(rnd.sample(range(len(b)), min(len(b), 16)))
         for p in pos:
             for v in (vals if ctx.thorough else rnd.sample(vals, 4)):
                 add(b[:p] + bytes([v]) + b[p + 1:], 'mutated')
             add(b[:p] + bytes([(b[p] + 1) & 255]) + b[p + 1:], 'mutated')
-    for j in range(4000 if ctx.thorough else 600):
+    for j in range(4000 if ctx.thorough else 400):
         b = rand_msg(rnd, odd=(j % 4 == 3))
         add(b, 'random')
         if j % 2 == 0:
@@ -324,7 +332,7 @@ def run(ctx):
     if not ctx.thorough:
         rnd = random.Random(ctx.seed + 5)
         enc = sorted(enc)
-        enc = rnd.sample(enc, min(len(enc), 1500))
+        enc = rnd.sample(enc, min(len(enc), 800))
     cases = gen_unpack(ctx, enc)
     lines = ['u %s' % hx(b) for b, _t in cases] + gen_queries(ctx)
     ctx.log('driver built; %d datagrams + %d query builds' % (len(cases), len(lines) - len(cases)))
@@ -370,11 +378,14 @@ def run(ctx):
     ctx.cov['records_decoded'] = sum(len(o['msg']['rr']) for o in outs if o.get('has'))
     ctx.cov['aborts'] = sum(1 for o in outs if o.get('abort'))
     ctx.cov['ub_reports'] = sum(1 for o in outs if o.get('ub'))
+    if any(o.get('ub') and o['fn'] != 'u' for o in outs):
+        ctx.notes.append('UBSan: rfc1035RRPack (rfc1035.cc) calls memcpy(dst, nullptr, 0) when rfc2671RROptPack packs the OPT record (rdata = nullptr, rdlength = 0): '
+                         'undefined by the letter of the C standard, harmless in practice; not part of the statement')
     for j in (0, min(len(cases) // 2, len(outs) - 1), len(outs) - 1):
         o = outs[j]
         ctx.sample({'fn': o['fn'], 'datagram': bytes(o['b']).hex()[:120], 'ret': o.get('ret'), 'err': o.get('err'),
                     'question': bytes(o['msg']['q']['name']).decode('latin-1') if o.get('has') else None})
-    ctx.cov['rule'] = ('distinct datagrams: every encoding TLC produced from the bounded message domain x all compression plans (quick: a seeded sample of 1500), '
+    ctx.cov['rule'] = ('distinct datagrams: every encoding TLC produced from the bounded message domain x all compression plans (quick: a seeded sample of 800), '
                        'crafted pointer structures (self/mutual loops, chains of 2..101 pointers, forward/out-of-range/truncated pointers, reserved label types, '
                        'names of 250..300 wire octets, PTR RDATA shorter/longer than its name, rdlength/count/rcode/section variations), every truncation and '
                        'byte substitutions of 7-8 messages, seeded random messages (A/AAAA/PTR/CNAME/NS/TXT/SOA/OPT records, random compression, authority and '
